@@ -26,6 +26,7 @@
  */
 
 #include <stdio.h>
+#include <float.h>
 #include <stdlib.h>
 #include <string.h>
 #include "rebound.h"
@@ -335,7 +336,10 @@ static void reb_mercurius_encounter_step(struct reb_simulation* const r, const d
     
     r->dt = 0.0001*_dt; // start with a small timestep.
     
-    while(dtsign*r->t < dtsign*t_needed && fabs(r->dt/old_dt)>1e-14 ){
+    // Stop when the end of the step is reached, or give up when the adaptive timestep has collapsed: either relative to
+    // the timestep of the outer integrator, or to within a few ulp of the current time (then r->t cannot advance in
+    // any reasonable number of substeps; happens when two point masses fall onto each other).
+    while(dtsign*r->t < dtsign*t_needed && fabs(r->dt/old_dt)>1e-14 && fabs(r->dt)>64.*DBL_EPSILON*fabs(r->t)){
         struct reb_particle star = r->particles[0]; // backup velocity
         r->particles[0].vx = 0; // star does not move in dh 
         r->particles[0].vy = 0;
